@@ -383,3 +383,11 @@ def _c12_flufl(v):
     d, msg, mech, ver = _c12(v)
     return msg == "Seriously I'm not implementing this :) ~ Dave" and 'barry_as_FLUFL' in (d.get('line_text') or '') \
         and 'import_from' in (d.get('ancestors') or [])
+
+
+@classifier('c12_yield_from_in_comprehension_in_async_def_le_37')
+def _c12_yf_comp(v):
+    """F-C12-22: grammar <= 3.7: `yield from` inside a comprehension (its own, synchronous scope for CPython <= 3.7) in the
+    body of an async function"""
+    d, msg, mech, ver = _c12(v)
+    return ver <= (3, 7) and msg == "'yield from' inside async function" and mech.get('in_comprehension') is True
